@@ -151,6 +151,9 @@ def run(ctx):
     ok = len(pc) == 1 and any(pol and noid(k).replace(" ", "") == "(this->status&occa::lang::ppStatus::foundIf)" for (k, pol) in fs_.facts_at(pc[0]))
     R.ob("C13-R3", ok, en.q, "#endif pops iff inside an #if", en.site(pc[0]) if pc else en.relfile, "pop guarded by foundIf")
     kept_lines(prog, R, pushers)
+    # controlling expressions are evaluated in intmax_t / uintmax_t, the value of defined() included (shared with C14)
+    from vlib.refile import refile
+    refile(ctx, c14, {"C14-R8": "C13-R7"}, "C14")
     mp = ctx.program(["src/occa/internal/lang/macro.cpp"], thorough_all=False)
     me = mp.fn("occa::lang::macroArgument::expand")
     loops = [n for n in me.walk() if n["k"] in ("ForStmt", "WhileStmt") and not n.get("mac") and any(is_call(c) and callee(c).endswith("macroArgument::expandArg") for c in walk(n))]
